@@ -112,6 +112,33 @@ Theorem C01_restart_refuted_F47 :
 Proof. exact restart_refuted_F47. Qed.
 Print Assumptions C01_restart_refuted_F47.
 
+(* The gas-per-block history.  The cache is an append-only slice: two successful setGasPerBlock calls in one block leave
+   two records with the same index (storage keeps the last).  GetGASPerBlock(index) read from the incrementally extended
+   slice = read from the list a restart rebuilds from storage, for every index, in every reachable state ... *)
+Theorem C01_gas_per_block_lookup_coherent : forall cfg, cfg_wf cfg -> fix_block_dirty cfg = true -> fix_gpv_drop cfg = true -> fix_whitelist cfg = true ->
+  0 < csize cfg -> forall bs idx, blocks_ok cfg bs ->
+  gas_per_block (reinit cfg (reach cfg bs)) idx = gas_per_block (reach cfg bs) idx.
+Proof. exact gas_per_block_lookup_coherent. Qed.
+Print Assumptions C01_gas_per_block_lookup_coherent.
+
+(* ... and stays so after any continuation, together with the sum CalculateNEOHolderReward takes over the history *)
+Theorem C01_gas_per_block_restart_transparent : forall cfg, cfg_wf cfg -> fix_block_dirty cfg = true -> fix_gpv_drop cfg = true -> fix_whitelist cfg = true ->
+  0 < csize cfg -> forall bs bs' idx start en, blocks_ok cfg bs -> blocks_ok cfg bs' ->
+  gas_per_block (fold_left (step cfg) bs' (reinit cfg (reach cfg bs))) idx = gas_per_block (fold_left (step cfg) bs' (reach cfg bs)) idx
+  /\ gas_sum_over (fold_left (step cfg) bs' (reinit cfg (reach cfg bs))) start en = gas_sum_over (fold_left (step cfg) bs' (reach cfg bs)) start en.
+Proof. exact gas_per_block_restart_transparent_full. Qed.
+Print Assumptions C01_gas_per_block_restart_transparent.
+
+(* it is "the LAST appended of the records with one index" that makes this true: on the history w_gpb (one block setting
+   6 GAS then 2 GAS) the reading "first appended of equal indices" answers 6 on the running node and 2 after a restart *)
+Theorem C01_gas_per_block_first_of_equal_refuted :
+  let cfg := w_cfg true true in
+  cfg_wf cfg /\ fix_block_dirty cfg = true /\ fix_gpv_drop cfg = true /\ fix_whitelist cfg = true /\ blocks_ok cfg w_gpb
+  /\ gas_per_block (reach cfg w_gpb) 3 = gas_per_block (reinit cfg (reach cfg w_gpb)) 3
+  /\ gpb_at_first (c_gpb (A (reach cfg w_gpb))) 3 <> gpb_at_first (c_gpb (A (reinit cfg (reach cfg w_gpb)))) 3.
+Proof. exact gas_per_block_first_of_equal_refuted. Qed.
+Print Assumptions C01_gas_per_block_first_of_equal_refuted.
+
 (* non-vacuity: the hypotheses of C01_cache_coherent hold for a concrete configuration and history (the F7 and F23
    histories on the repaired settings), where the committee was elected and changes *)
 Example C01_example :
